@@ -128,6 +128,30 @@ func heapRoles() []heapRole {
 			a := v(p, "a", k.t)
 			return seq(one(decl(a, k.mk(1))), one(&ExprStmt{X: &Call{F: f, Args: []Expr{a}}}), k.digest(a), one(&ExprStmt{X: &Call{F: f, Args: []Expr{a}}}), k.digest(a)), []*Func{f}
 		}},
+		// growth across every capacity boundary: element appended / prepended / list ∘ list at each length 0..13, so that a
+		// copy of one element too many (or too few) meets the end of the block at least once
+		{"grow-across-capacity", func(p string, k heapKind) ([]Stmt, []*Func) {
+			if k.name != "ZahlenListe" && k.name != "TextListe" {
+				return nil, nil
+			}
+			el := func(i int) Expr {
+				if k.name == "ZahlenListe" {
+					return zl(int64(i))
+				}
+				return &Bin{Op: "verkettet", L: tl("e€"), R: &Cast{X: zl(int64(i)), T: Text}, T: Text}
+			}
+			a, b, c2 := v(p, "a", k.t), v(p, "b", k.t), v(p, "c", k.t)
+			out := []Stmt{decl(a, &ListLit{T: k.t}), decl(b, &ListLit{T: k.t}), decl(c2, &ListLit{T: k.t})}
+			for i := 1; i <= 13; i++ {
+				out = append(out, &Assign{Target: a, Val: &Bin{Op: "verkettet", L: a, R: el(i), T: k.t}}) // append
+				out = append(out, &Assign{Target: b, Val: &Bin{Op: "verkettet", L: el(i), R: b, T: k.t}}) // prepend
+				out = append(out, &Assign{Target: c2, Val: &Bin{Op: "verkettet", L: el(i), R: a, T: k.t}}) // scalar before a list of every length
+				out = append(out, k.digest(c2)...)
+				out = append(out, &Assign{Target: c2, Val: &Bin{Op: "verkettet", L: a, R: b, T: k.t}}) // list ∘ list
+				out = append(out, k.digest(c2)...)
+			}
+			return seq(out, k.digest(a), k.digest(b)), nil
+		}},
 		{"ref-arg", func(p string, k heapKind) ([]Stmt, []*Func) {
 			f := &Func{Name: p + "_set", Params: []Param{{Name: "w", T: k.t, Ref: true}}, Ret: Void, Body: one(&Assign{Target: vr("w", k.t), Val: k.mk(7)})}
 			a := v(p, "a", k.t)
